@@ -375,6 +375,30 @@ def signature(prop, clause):
     return f"{prop}:engine:{clause}"
 
 
+OBSERVER_FILES = ("uberjob/progress/_simple_progress_observer.py", "uberjob/progress/_html_progress_observer.py",
+                  "uberjob/progress/_composite_progress_observer.py")
+
+
+def bundled_observer_tasks(seed, count, profile="mixed"):
+    """Executions with a bundled display (HTML observer with its update thread) next to the recording observer,
+    preemption also inside the observers' code: races between workers notifying the display and between the
+    display's own thread and shutdown."""
+    from . import detsched
+
+    tasks = gen_tasks(profile, count, seed + 900, opcode_frac=0.0, nmax=7)
+    rng = random.Random(f"bundled-{seed}")
+    for t in tasks:
+        t["observer"] = "html"
+        t["files"] = list(detsched.ENGINE_FILES + OBSERVER_FILES)
+        t["keep_events"] = True
+        t["opts"]["W"] = rng.choice([2, 3, 4])
+        # scopes so that several scope states exist
+        t["scn"] = dict(t["scn"])
+        t["scn"]["scopes"] = {str(n["id"]): [rng.choice(["a", "b", "c"])] for n in t["scn"]["nodes"]}
+        t["budget"] = 400000
+    return tasks
+
+
 def join_enum_tasks(seed, count=4, limit=None):
     """Bounded-preemption enumeration (b = 1, every step x every other thread) on plans built around
     *joins* - nodes with several predecessors, including literals with several dependencies whose
